@@ -19,7 +19,7 @@ ASSUMPTIONS = ['moduli policies are monotone (a larger request never yields a sm
                'for sizes below 2048 only "at least one extra failure note" is demanded (the tool replaces the generic SHA-1 failure text of the sha1 variant by the size text)',
                'the OpenSSH explanatory note is demanded only when the follow-up probe returns a size different from 2048']
 MANIFEST = {
-    'text': 'Exploration (exhaustive over the 511 x 3 moduli policies in the thorough tier): each policy is served by a scripted server in real probes; the reported size is compared with a model of the statement and with the requests the server actually logged, and rated with a differential threshold oracle.',
+    'text': 'Exploration (exhaustive over the 511 x 5 moduli policies in the thorough tier, plus groups of non-aligned length, groups with leading one bits and per-algorithm moduli): each policy is served by a scripted server in real probes; the reported size is compared with a model of the statement and with the requests the server actually logged, and rated with a differential threshold oracle.',
     'note': 'Ground truth is the peer\'s moduli policy and its log of GEX_REQUEST(min,pref,max) messages; trusts report parsers.',
     'technique': 'boundary monitoring of real group-exchange probes: reference model + offline check over the peer\'s recorded request log; differential threshold oracle',
 }
